@@ -42,6 +42,7 @@ type Poison struct {
 	MultiSingl  bool // singletons in several modules (host call order = init order)
 	Mangle      bool
 	Capture     bool
+	JsonMixed   bool // non-encodable fields of different kinds in one object (gen_fielderr.go)
 }
 
 type sb struct{ strings.Builder }
@@ -741,7 +742,12 @@ var Families = map[string]func(*fw.Rng, Poison) Built{
 	"typeerr":  famTypeErr,
 	"fatal":    famFatal,
 	"misc":     famMisc,
+	"fielderr": famFieldErr,
 }
 
-// FamilyNames in a fixed order.
+// FamilyNames in a fixed order (these families share one generator stream).
 var FamilyNames = []string{"modules", "objects", "locals", "warnings", "impl", "typeerr", "fatal", "misc"}
+
+// LateFamilyNames: families added after the first workloads were recorded. They draw from their own
+// generator stream, so that the cases of the older families stay what they were for every seed.
+var LateFamilyNames = []string{"fielderr"}
